@@ -8,6 +8,9 @@ from shexer.model.property import Property as ModelProperty
 from shexer.model.Literal import Literal as ModelLiteral
 from shexer.model.bnode import BNode as ModelBnode
 from shexer.consts import RDF_TYPE
+import re
+
+_LANG_TAG = re.compile("[a-zA-Z]+(-[a-zA-Z0-9]+)*")  # what rdflib accepts as a language tag
 
 
 
@@ -79,7 +82,7 @@ class RdflibSgraph(SGraph):
 
         self._rdflib_graph.add((self._turn_obj_into_rdflib_element(subj),
                                 self._turn_obj_into_rdflib_element(prop),
-                                self._turn_obj_into_rdflib_element(obj)))
+                                self._turn_obj_into_rdflib_element(obj, raw_token=a_triple[_O])))
 
     def yield_classes_with_instances(self, instantiation_property=RDF_TYPE):
         result = set()
@@ -92,11 +95,15 @@ class RdflibSgraph(SGraph):
             yield elem
 
 
-    def _turn_obj_into_rdflib_element(self, model_elem):
+    def _turn_obj_into_rdflib_element(self, model_elem, raw_token=None):
         if type(model_elem) == ModelIRI or type(model_elem) == ModelProperty:
             return URIRef(model_elem.iri)
         elif type(model_elem) == ModelLiteral:
-            return Literal(lexical_or_value=str(model_elem),
+            lexical_form, lang = self._lexical_form_and_lang(model_elem, raw_token)
+            if lang is not None:
+                return Literal(lexical_or_value=lexical_form,
+                               lang=lang)
+            return Literal(lexical_or_value=lexical_form,
                            datatype=model_elem.elem_type,
                            normalize=False)  # keep the lexical form the endpoint sent
         elif type(model_elem) == ModelBnode:
@@ -104,6 +111,23 @@ class RdflibSgraph(SGraph):
         else:
             raise ValueError("Unexpected type of element. " + str(model_elem) + ": " + str(type(model_elem)))
 
+
+    @staticmethod
+    def _lexical_form_and_lang(model_elem, raw_token):
+        """
+        The model literal keeps neither the language tag nor what follows a quote inside the lexical form.
+        Two different literals must not become the same node of the local graph, so both are read from the
+        token: a quote, the lexical form, a quote and then nothing, @lang or ^^<datatype>.
+        :param model_elem:
+        :param raw_token:
+        :return: lexical form, language tag (None if there is no well-formed one)
+        """
+        if raw_token is None or not raw_token.startswith('"') or raw_token.rfind('"') == 0:
+            return str(model_elem), None
+        index_of_last_quotes = raw_token.rfind('"')
+        suffix = raw_token[index_of_last_quotes + 1:]
+        lang = suffix[1:] if suffix.startswith("@") and _LANG_TAG.fullmatch(suffix[1:]) else None
+        return raw_token[1:index_of_last_quotes], lang
 
     def _build_rdflib_graph(self, source, raw_graph, format):
         result = Graph()
